@@ -30,7 +30,7 @@ import itertools
 from ..da import analyse as da_analyse
 from ..kind import Skel, flatten_diff, short
 from ..lib import (evaluator, Decider, econd_summary, enum_member, rec_fields, show, walk, strip_casts,
-                   is_ext_call, fn_name, method_name, path_str, dep_names, ext_name, leaves, norm_src, module_aliases)
+                   is_ext_call, fn_name, method_name, path_str, dep_names, ext_name, leaves, norm_src, module_aliases, per_param_init)
 from ..spec import spec_term, Comparer
 from ..terms import T, sym, const, is_const, cval, NONE
 from ..model import AnalysisError
@@ -183,7 +183,7 @@ def _vtag(v):
 def ds_layout(ctx):
   m = ctx.model
   ev0 = evaluator(m)
-  finit = m.func(MOD, F + '.init_fn._init')
+  finit = m.func(MOD, F + '.init_fn')
   fcs = m.func(MOD, F + '._compute_stats')
   fcp = m.func(MOD, F + '._compute_preconditioners')
   ftg = m.func(MOD, F + '._transform_grad')
@@ -202,7 +202,7 @@ def ds_layout(ctx):
     vt = _vtag(v)
     G, STEP = sym('spec', 'grad'), sym('spec', 'step')
     try:
-      s0 = [ev.run(finit, args={'param': P}) for P in (PA, PB)]
+      s0 = [per_param_init(ev, finit, P) for P in (PA, PB)]
       s1 = [ev.run(fcs, args={'grad': G, 'state': s, 'param': P, 'step': STEP}) for s, P in zip(s0, (PA, PB))]
       r2 = ev.run(fcp, args={'states': T('list', *s1), 'params': T('list', PA, PB), 'step': STEP})
     except RecursionError:
@@ -284,7 +284,7 @@ def _report_bad(ctx, fi, k, where, vt):
 def other_layouts(ctx):
   m = ctx.model
   # SM3
-  fi0 = m.func('sm3', 'sm3.init_fn._init')
+  fi0 = m.func('sm3', 'sm3.init_fn')
   fu = m.func('sm3', 'sm3.update_fn')
   ctx.analysed(fi0, fu)
   for rank1 in (False, True):
@@ -293,7 +293,7 @@ def other_layouts(ctx):
                 extra=lambda c, rank1=rank1: (rank1 if (c.op == 'cmp' and c.args[0] in ('<', '==') and is_const(c.args[2]) and 'ndim' in show(c.args[1], maxdepth=4)) else None))
     ev = evaluator(m, decide=d)
     P = sym('spec', 'param')
-    s0 = ev.run(fi0, args={'param': P})
+    s0 = per_param_init(ev, fi0, P)
     state = T('rec', m.cls('sm3', 'SM3State').fq, (('count', sym('spec', 'count')), ('stats', s0)))
     n_before = len(ev.calls)
     r = ev.run(fu, args={'updates': sym('spec', 'g'), 'state': state, 'params': P})
@@ -729,7 +729,7 @@ def validation(ctx):
   m = ctx.model
   ev0 = evaluator(m)
   fcp = m.func(MOD, F + '._compute_preconditioners')
-  finit = m.func(MOD, F + '.init_fn._init')
+  finit = m.func(MOD, F + '.init_fn')
   fcs = m.func(MOD, F + '._compute_stats')
   ffac = m.func(MOD, F)
   atoms = ['fd', 'reuse', 'comp', 'avg', 'gfm', 'gtm']
@@ -763,7 +763,7 @@ def validation(ctx):
                    opaque={'_skip_preconditioning', 'merge_small_dims', 'power_iteration', 'mat_power'},
                    summaries={'efficient_cond': econd_summary}, max_depth=16)
     G, STEP = sym('spec', 'grad'), sym('spec', 'step')
-    s0 = [ev.run(finit, args={'param': P}) for P in (PA, PB)]
+    s0 = [per_param_init(ev, finit, P) for P in (PA, PB)]
     s1 = [ev.run(fcs, args={'grad': G, 'state': s, 'param': P, 'step': STEP}) for s, P in zip(s0, (PA, PB))]
     ev.asserts.clear()
     ev.run(fcp, args={'states': T('list', *s1), 'params': T('list', PA, PB), 'step': STEP})
